@@ -468,6 +468,9 @@ const tsPrefix = "F!google.golang.org/protobuf/types/known/timestamppb.Timestamp
 
 func (x *Exec) tsTime(st *State, ref Term) Term {
 	x.registerPrefix(tsPrefix, types.Typ[types.Int64])
+	if st.Fresh[ref.S] || st.NonNil[ref.S] {
+		return x.readComp(st, tsPrefix, SInt, ref)
+	}
 	return Ite(Eq(ref, IntT(0)), IntT(0), x.readComp(st, tsPrefix, SInt, ref))
 }
 
